@@ -4,6 +4,7 @@ import (
 	"context"
 	"fmt"
 	"reflect"
+	"sync"
 
 	"github.com/arr-ai/frozen"
 	"github.com/arr-ai/wbnf/parser"
@@ -235,22 +236,44 @@ func (s GenericSet) Map(f func(v Value) (Value, error)) (Set, error) {
 }
 
 // Where returns a new genericSet with all the Values satisfying predicate p.
-func (s GenericSet) Where(p func(v Value) (bool, error)) (_ Set, err error) {
+func (s GenericSet) Where(p func(v Value) (bool, error)) (Set, error) {
+	// frozen runs the callback from several goroutines once the set is large.
+	var failure firstError
 	set := s.set.Where(func(elem Value) bool {
-		if err != nil {
+		if failure.get() != nil {
 			return false
 		}
-		match, err2 := p(elem)
-		if err2 != nil {
-			err = err2
+		match, err := p(elem)
+		if err != nil {
+			failure.set(err)
 			return false
 		}
 		return match
 	})
-	if err != nil {
+	if err := failure.get(); err != nil {
 		return nil, err
 	}
 	return newSetFromFrozenSet(set), nil
+}
+
+// firstError keeps the first error reported to it and is safe for concurrent use.
+type firstError struct {
+	mu  sync.Mutex
+	err error
+}
+
+func (f *firstError) set(err error) {
+	f.mu.Lock()
+	defer f.mu.Unlock()
+	if f.err == nil {
+		f.err = err
+	}
+}
+
+func (f *firstError) get() error {
+	f.mu.Lock()
+	defer f.mu.Unlock()
+	return f.err
 }
 
 var errElementsNotMatchingAt = fmt.Errorf("cannot call sets with elements not matching (@: _, _: _)")
